@@ -428,3 +428,40 @@ TRUSTED_BASE = [
     "the correspondence harness (generators, comparators) and CPython 3.12.1 in /venv",
     "hand-written Gallina model of the anchored functions, tied to the code by differential runs",
 ]
+
+
+def failing_resolution_facts():
+    """Re-evaluate every item of GenFacts/ResolutionFacts.v against build/dump.json (the registry of the
+    tree under test) and return the items that no longer hold: [(name, kinds, expected, now)]."""
+    d = json.load(open(os.path.join(BUILD, "dump.json")))
+    kinds, types = d["kinds"], d["sig_types"]
+    isin, sub = d["isinstance"], d["subclass"]
+    reg = {r["name"]: r["sigs"] for r in d["registry"]}
+    tix = {t: i for i, t in enumerate(types)}
+
+    def matches(s, ks):
+        a = s["args"]
+        if len(ks) < len(a) or any(not isin[k][tix[t]] for t, k in zip(a, ks)):
+            return False
+        return len(ks) == len(a) or (s["vararg"] is not None and all(isin[k][tix[s["vararg"]]] for k in ks))
+
+    def resolve(name, kn):
+        ks = [kinds.index(k) for k in kn]
+        ms = [s for s in reg.get(name, []) if matches(s, ks)]
+        if not ms:
+            return None
+        c = ms[0]
+        for h in ms[1:]:
+            if all(sub[tix[x]][tix[y]] for x, y in zip(h["args"], c["args"])):
+                c = h
+        return c["impl"]
+    txt = open(os.path.join(COQ, "GenFacts", "ResolutionFacts.v"), encoding="utf-8").read()
+    bad = []
+    for m in re.finditer(r'^  (resolves|rejects) "((?:[^"]|"")*)" \[([^\]]*)\](?: "((?:[^"]|"")*)")?', txt, flags=re.M):
+        kind, name, ks, impl = m.group(1), m.group(2).replace('""', '"'), m.group(3), m.group(4)
+        kn = [k.strip().strip('"') for k in ks.split(";")] if ks.strip() else []
+        now = resolve(name, kn)
+        want = impl.replace('""', '"') if kind == "resolves" else None
+        if now != want:
+            bad.append((name, kn, want, now))
+    return bad
